@@ -69,4 +69,55 @@ Translation(x, y, z) == <<<<1, 0, 0, x>>, <<0, 1, 0, y>>, <<0, 0, 1, z>>, <<0, 0
 Scaling(x, y, z) == <<<<x, 0, 0, 0>>, <<0, y, 0, 0>>, <<0, 0, z, 0>>, <<0, 0, 0, 1>>>>
 TransformPoint(A, v) == NarrowCast(MVec(A, PushBack(v, 1)), 3)
 TransformDirection(A, v) == NarrowCast(MVec(A, PushBack(v, 0)), 3)
+
+----------------------------------------------------------------------------
+(* EXTENSION ROUND: the remaining integer functions of fcppt::math vector / dim / matrix *)
+Abs(x) == IF x < 0 THEN -x ELSE x
+MaxOfSet(S) == CHOOSE x \in S : \A y \in S : y <= x
+(* C++ integer division truncates towards zero; % has the sign of the dividend *)
+TruncDiv(a, b) == (IF (a < 0) = (b < 0) THEN 1 ELSE -1) * (Abs(a) \div Abs(b))
+CMod(a, b) == a - b * TruncDiv(a, b)
+(* fcppt::math::div / mod: "In case divisor is 0, nothing is returned." / "Otherwise % is used.
+   Returns nothing if _divisor is zero."  An optional is a sequence of length <= 1 *)
+OptDiv(a, b) == IF b = 0 THEN <<>> ELSE <<TruncDiv(a, b)>>
+OptMod(a, b) == IF b = 0 THEN <<>> ELSE <<CMod(a, b)>>
+(* ceil_div_signed: "In case divisor is 0, nothing is returned. Otherwise, returns the least
+   integer that is not less than the exact quotient, for dividends and divisors of either sign." *)
+CeilDiv(a, b) ==
+  CHOOSE q \in (-(Abs(a) + 1))..(Abs(a) + 1) :
+    IF b > 0 THEN q * b >= a /\ (q - 1) * b < a ELSE q * b <= a /\ (q - 1) * b > a
+OptCeilDiv(a, b) == IF b = 0 THEN <<>> ELSE <<CeilDiv(a, b)>>
+(* a vector of optionals becomes an optional vector: nothing if any component is nothing
+   (vector::sequence; operator/, mod and ceil_div_signed of vectors "Returns nothing in case
+   _divisor is zero") *)
+OptAll(os) == IF \E i \in 1..Len(os) : os[i] = <<>> THEN <<>> ELSE <<[i \in 1..Len(os) |-> os[i][1]]>>
+VDiv(v, w) == OptAll([i \in 1..Len(v) |-> OptDiv(v[i], w[i])])
+VDivScalar(v, k) == OptAll([i \in 1..Len(v) |-> OptDiv(v[i], k)])
+VMod(v, w) == OptAll([i \in 1..Len(v) |-> OptMod(v[i], w[i])])
+VModScalar(v, k) == OptAll([i \in 1..Len(v) |-> OptMod(v[i], k)])
+VCeilDivSigned(v, k) == OptAll([i \in 1..Len(v) |-> OptCeilDiv(v[i], k)])
+(* vector::unit: "all components set to 0 expect for component _axis which is set to 1" (0-based axis) *)
+Unit(n, axis) == [i \in 1..n |-> IF i - 1 = axis THEN 1 ELSE 0]
+(* dim::is_quadratic: all extents are equal *)
+IsQuadratic(d) == \A i \in 1..Len(d) : d[i] = d[1]
+(* matrix::infinity_norm: "Calculates the infinity norm" = maximum absolute row sum *)
+InfinityNorm(A) == MaxOfSet({Sum(LAMBDA j : Abs(A[i][j]), Cols(A)) : i \in 1..Rows(A)})
+(* math::interval_distance(<<a1,b1>>, <<a2,b2>>), a <= b: "Distance can be zero if the intervals touch,
+   or negative if they overlap. If they only partially overlap, the distance is negative the common
+   length where they overlap. If one completely contains the other, the outer interval is split in
+   two parts by the inner one. In this case, the (again negative) length of the shorter part is
+   returned. Therefore the distance is zero if the inner interval touches the outer one."
+   The set of values the documentation allows: when one interval contains the other AND they share
+   an end point, the last sentence says 0 while the partial-overlap rule (which the code applies)
+   says minus the common length; both are accepted (see docs/notes_C14.md). *)
+IvContains(o, i) == o[1] <= i[1] /\ i[2] <= o[2]
+IvStrictlyInside(o, i) == o[1] < i[1] /\ i[2] < o[2]
+IvOverlapRule(x, y) == (IF x[1] < y[1] THEN y[1] ELSE x[1]) - (IF x[2] < y[2] THEN x[2] ELSE y[2])   \* max of firsts - min of seconds
+IvShorterPart(o, i) == -(IF i[1] - o[1] < o[2] - i[2] THEN i[1] - o[1] ELSE o[2] - i[2])
+IntervalDistanceAllowed(x, y) ==
+  IF IvStrictlyInside(x, y) THEN {IvShorterPart(x, y)}
+  ELSE IF IvStrictlyInside(y, x) THEN {IvShorterPart(y, x)}
+  ELSE IF IvContains(x, y) THEN {IvOverlapRule(x, y), IvShorterPart(x, y)}
+  ELSE IF IvContains(y, x) THEN {IvOverlapRule(x, y), IvShorterPart(y, x)}
+  ELSE {IvOverlapRule(x, y)}
 =============================================================================
